@@ -216,6 +216,16 @@ func (t *Term) Int() (int64, bool) {
 
 // project: field selection with simplification over functional updates.
 func project(v *Term, field string, ft types.Type) *Term {
+	// the result of an opaque call that returns a carrier struct: component i of a tuple
+	if v.Op == "call" && v.Typ != nil {
+		if st, ok := carrierStruct(v.Typ); ok {
+			for k := 0; k < st.NumFields(); k++ {
+				if st.Field(k).Name() == field {
+					return &Term{Op: "extract", Name: strconv.Itoa(k), Args: []*Term{v}, Typ: ft}
+				}
+			}
+		}
+	}
 	for {
 		switch v.Op {
 		case "update":
